@@ -15,6 +15,7 @@ Variable A : V -> V.
 (* defect flags of the pinned tree (true = pinned behaviour, false = the behaviour after the recorded repairs) *)
 Variable selfref : bool.     (* arnoldi_breakdown_continues: stopping test against tol*H[1,0]; remainder divided by clip(norm, tol/2) *)
 Variable zero_nan : bool.    (* gmres_zero_residual_nan: start vector divided by its norm even when that is 0 *)
+Variable abs_clip : bool.    (* arnoldi_absolute_clip: remainder compared with the absolute tol/2; repaired: tol/2 * ||H[:, 0]|| *)
 
 Definition vnrm (v : V) : T := osqrt o (vdot vo v v).
 Definition clip_min (x lo : T) : T := if oltb o x lo then lo else x.        (* np.clip(x, a_min=lo) *)
@@ -39,23 +40,30 @@ Definition init_acol (rhs : V) : acol :=
   let nrm := vnrm rhs in let q0 := vdivs vo rhs (start_den nrm) in
   {| aqs := [q0]; alast := q0; ahs := []; anorm := nrm |}.
 
-(* the next basis vector: pinned  w / clip(norm, tol/2);  repaired  where(norm > tol/2, w / clip(norm, tol/2), 0) *)
-Definition next_q (tol : T) (w : V) (nrm : T) : V :=
+(* xnp.norm(H[:, :, 0], axis=-1) of a list of filled columns: the norm of the first column of H, i.e. ||A q_0|| *)
+Definition hs_col0_norm (hcols : list (list T)) : T :=
+  osqrt o (fold_left (fun acc h => oadd o acc (omul o (oconj o h) h)) (nth 0 hcols []) (o0 o)).
+(* the breakdown threshold of a step, evaluated after column idx of H has been written: tol/2 (pinned) or
+   tol/2 * ||H[:, 0]|| (repaired) *)
+Definition step_thr (tol : T) (hcols' : list (list T)) : T :=
   let t2 := odiv o tol (oadd o (o1 o) (o1 o)) in
-  if selfref then vdivs vo w (clip_min nrm t2)
-  else if oltb o t2 nrm then vdivs vo w (clip_min nrm t2) else vscale vo (o0 o) w.
+  if abs_clip then t2 else omul o t2 (hs_col0_norm hcols').
+(* the next basis vector: pinned  w / clip(norm, thr);  repaired  where(norm > thr, w / clip(norm, thr), 0) *)
+Definition next_q (thr : T) (w : V) (nrm : T) : V :=
+  if selfref then vdivs vo w (clip_min nrm thr)
+  else if oltb o thr nrm then vdivs vo w (clip_min nrm thr) else vscale vo (o0 o) w.
 
 Definition arnoldi_step (tol : T) (c : acol) : acol :=
   let '(w, hs) := mgs (aqs c) (A (alast c)) [] in
   let nrm := vnrm w in
-  let qn := next_q tol w nrm in
-  {| aqs := aqs c ++ [qn]; alast := qn; ahs := ahs c ++ [rev hs ++ [nrm]]; anorm := nrm |}.
+  let hcols' := ahs c ++ [rev hs ++ [nrm]] in
+  let qn := next_q (step_thr tol hcols') w nrm in
+  {| aqs := aqs c ++ [qn]; alast := qn; ahs := hcols'; anorm := nrm |}.
 
 Definition hent (c : acol) (i j : nat) : T := nth i (nth j (ahs c) []) (o0 o).     (* H[i, j] of the zero-initialised buffer *)
 Definition ast := (list acol * nat)%type.
 (* xnp.norm(H[:, :, 0], axis=-1): the norm of the first column of H, i.e. ||A q_0|| *)
-Definition col0_norm (c : acol) : T :=
-  osqrt o (fold_left (fun acc h => oadd o acc (omul o (oconj o h) h)) (nth 0 (ahs c) []) (o0 o)).
+Definition col0_norm (c : acol) : T := hs_col0_norm (ahs c).
 (* is_not_max & any((norm > tol * ref) | (idx <= 0)),  ref = H[:, 1, 0].real (pinned) or ||H[:, :, 0]|| (repaired) *)
 Definition stop_ref (c : acol) : T := if selfref then hent c 1 0 else col0_norm c.
 Definition arnoldi_cond (tol : T) (cap : nat) (s : ast) : bool :=
@@ -77,7 +85,7 @@ Variable A : V -> V.
 Variable solve : list (list T) -> list T -> list T.      (* xnp.solve on one column's m x m system *)
 Variable square_H : bool.       (* defect flag gmres_square_H: true = the pinned tree (last Hessenberg row dropped) *)
 Variable pad_buf : bool.        (* arnoldi_padding: true = buffers sized by the requested max_iters; false = by min(max_iters, n) *)
-Variables (selfref zero_nan : bool).
+Variables (selfref zero_nan abs_clip : bool).
 
 Definition tabulate {X} (k : nat) (f : nat -> X) : list X := map f (seq 0 k).
 Definition tsum (k : nat) (f : nat -> T) : T := fold_left (fun acc i => oadd o acc (f i)) (seq 0 k) (o0 o).
@@ -115,7 +123,7 @@ Definition gmres_col (mfac : T) (m : nat) (x0 r0 : V) (c : acol (T:=T) (V:=V)) :
 Record gres := mkgres { gsol : list V; gsteps : nat }.     (* gsteps = number of Arnoldi steps = products with A minus one *)
 Definition gmres_fwd (tol mfac : T) (m n : nat) (bs x0s : list V) : gres :=
   let rs := map (fun bx => vsub vo (fst bx) (A (snd bx))) (combine bs x0s) in      (* res = rhs - A @ x0 *)
-  let s := arnoldi_fact o vo A selfref zero_nan tol m n rs in
+  let s := arnoldi_fact o vo A selfref zero_nan abs_clip tol m n rs in
   let mb := if pad_buf then m else Nat.min m n in                                    (* size of the H and Q buffers *)
   {| gsol := map (fun t => gmres_col mfac mb (fst (fst t)) (snd (fst t)) (snd t)) (combine (combine x0s rs) (fst s));
      gsteps := snd s |}.
